@@ -225,7 +225,11 @@ func decodeSSAIndep(b []byte) (ssaObs, error) {
 						e.MarginV = &n
 					}
 				case "Style":
-					e.Style = strings.TrimPrefix(v, "*")
+					// a reference may carry a '*' prefix; a style whose own name starts with '*' is referenced as is
+					e.Style = v
+					if _, ok := o.Styles[v]; !ok {
+						e.Style = strings.TrimPrefix(v, "*")
+					}
 				case "Name":
 					e.Name = v
 				case "Effect":
